@@ -127,7 +127,7 @@ func keyVals(r *Rng, style, typ string, n int, hash bool) []AV {
 			pool = append(pool, N(s))
 		}
 	case typ == "B":
-		pool = []AV{Bin(1), Bin(1, 2), Bin(2), Bin('a', '.', 'b'), Bin('a')}
+		pool = []AV{Bin(1, 1), Bin(1, 2), Bin(2, 1), Bin(7, 7), Bin(9, 1)} // equal width, single digits: text order = byte order
 	case style == "adversarial":
 		for _, s := range []string{"a.b", "a", "b.c", "c", "a.", ".", "..", "b", ".c", "a|b", "a:b", "a#b", "a,b", "a/b", "a\\", "a\x00b", "a.b.c"} {
 			pool = append(pool, S(s))
